@@ -4,7 +4,10 @@ spec/IOStreams.tla (shared with C12) + spec/StdoutShare.tla.  MC_IOStreams with 
 invariants, failing stdout writer in every output mode, a system() child that shows a file the program is
 writing, close() of a command that never reads its input), StdoutShare (serialised variant must satisfy NoLostUpdate/AtMostOneInside,
 the unserialised variant must violate NoLostUpdate -- the schedule then provoked on the real code through a gate
-writer), Gen_IOStreams families "delivery" and "failure", Trace_IOStreams on recorded runs.
+writer), Gen_IOStreams families "delivery", "failure" and "newline" (the newline output modes raw / crlf / smart x payloads
+with newlines in them -- ending with one, with an interior one with and without a final one, with CR LF inside -- written by
+print and printf to standard output, files, commands and /dev/stderr: the model states the delivered bytes),
+Trace_IOStreams on recorded runs.
 """
 import json, os, random
 from vlib import MachineryError
@@ -71,7 +74,11 @@ def run(ctx):
                 'child\'s output lies exactly between the program\'s output before and after the call); or a history of print / '
                 'printf / print with two arguments to stdout and its aliases, in default, CSV and TSV output mode, with Config.Output '
                 'a plain writer or a *bufio.Writer of 3, 16 or 4096 bytes (quick: 9 of the 12 mode x writer combinations; histories of 2 actions, thorough: also of 3 actions for 4 of the combinations), failing at byte k for every k (only "the run fails" is '
-                'judged) or never failing (everything must arrive); or a write-level schedule of StdoutShare; or a random run '
+                'judged) or never failing (everything must arrive); or a run in newline output mode raw / crlf / smart of one or two '
+                '(thorough: three) print / printf statements on one destination (stdout, "-", /dev/stdout, /dev/stderr, > and >> a file, | cat, '
+                '| "  cat") whose string argument is k, k LF, k LF K, k LF K LF or k CR LF K, optionally followed by close / fflush, every '
+                'ending for the single statements, with the delivered bytes predicted (crlf: every LF of a written string not already '
+                'preceded by CR arrives as CR LF, nothing is lost); or a write-level schedule of StdoutShare; or a random run '
                 'recorded from the real interpreter; non-trivial when it writes to a file, a command or an alias of stdout')
     ctx.assumptions += iocommon.ASSUMPTIONS + [
         'cat echoes its input; the order of a running child\'s output relative to the program\'s later writes is left open '
@@ -86,6 +93,9 @@ def run(ctx):
         'close() of a command that never reads its input must wait for it and return its exit status (3); what was written to it is '
         'discarded; stderr and the error outcome of such runs are not judged; nothing is said about the implicit close at the end',
         'histories that start processes are sampled (a process start costs ~100 ms here): all with <= 2 actions plus a seeded 3% (quick) / 5% (thorough) of the 3-action ones (1.2% / 3% of those that start the command that never reads or the file-showing system() child, but 10% of those that close() the former), 3% (0.6%) of the 4-action ones, 30% of the random walks; histories without a child process are replayed exhaustively',
+        'newline family: every history is replayed in the quick tier (about a quarter start one `cat`); the thorough tier adds all pairs '
+        '(every payload shape second, all three modes, every ending) and histories of three statements on one destination, of which a '
+        'seeded 25% are replayed (5% of those that start a process)',
         'gate writer: the first writer is parked for up to 2.5 s; a second writer that needs longer to show up is missed '
         '(missed detection only, never an alarm)',
     ]
@@ -96,8 +106,15 @@ def run(ctx):
         ctx.notes.append('model runs skipped (VERIF_SKIP_MODEL)')
     else:
         mc = ctx.cfg('MC_IOStreams', constants={'Depth': 2 if q else 3, 'Sandbox': 'FALSE', 'FailMax': 1 if q else 3, 'MaxRuns': 1,
-                                                'Modes': '{"default", "csv"}' if q else '{"default", "csv", "tsv"}'})
+                                                'Modes': '{"default", "csv"}' if q else '{"default", "csv", "tsv"}',
+                                                'NLs': '{"smart", "crlf"}', 'Rich': 0})
         ctx.tlc('MC_IOStreams', mc, timeout=1500, heap='8g')
+        if not q:
+            # every payload shape to every kind of destination, in all three newline output modes, histories of two actions
+            mc1 = ctx.cfg('MC_IOStreams', name='MC_IOStreams_allshapes',
+                          constants={'Depth': 2, 'Sandbox': 'FALSE', 'FailMax': 0, 'MaxRuns': 1, 'Modes': '{"default"}',
+                                     'NLs': '{"smart", "raw", "crlf"}', 'Rich': 1})
+            ctx.tlc('MC_IOStreams', mc1, timeout=1500, heap='8g')
     ctx.tlc('StdoutShare', 'StdoutShare', timeout=300, capture='share.ndjson', label='StdoutShare(serialised)')
     if not skip_model:
         unser = ctx.cfg('StdoutShare', name='StdoutShare_unser', constants={'Serialised': 'FALSE'}, drop=['INVARIANTS'],
@@ -142,6 +159,25 @@ def run(ctx):
     if not q:
         iocommon.replay(ctx, 'delivery4.ndjson', 'delivery-depth4', iocommon.corrupt, 2000)
         iocommon.replay(ctx, 'delivery_sim.ndjson', 'delivery-walks', iocommon.corrupt, 200)
+    # newline output modes x payload shapes
+    nl = ctx.cfg('Gen_IOStreams', name='Gen_newline', constants={'Family': '"newline"', 'Depth': 2 if q else 3, 'Rich': 1 if q else 2, 'Runs': 1})
+    ctx.tlc('Gen_IOStreams', nl, capture='newline_all.ndjson', timeout=900)
+    if q:
+        os.rename(ctx.path('newline_all.ndjson'), ctx.path('newline.ndjson'))
+    else:
+        # histories of one or two statements: all; of three: a seeded 25% (5% of those that start a process)
+        rnd = random.Random(ctx.seed + 17)
+        nk = iocommon.split_cases(ctx, 'newline_all.ndjson', 'newline.ndjson',
+                                  lambda c: len(c['acts']) <= 3 or rnd.random() < (0.05 if c['pred']['starts'] else 0.25))
+        ctx.log(f'newline_all.ndjson: {nk} exported histories kept for replay')
+    ncrlf = iocommon.split_cases(ctx, 'newline.ndjson', 'newline_dim.ndjson', iocommon.has_newline_dim)
+    ncmd = iocommon.split_cases(ctx, 'newline.ndjson', 'newline_cmd.ndjson',
+                                lambda c: c['cfg']['nlmode'] == 'crlf' and c['pred']['starts'] and c['pred']['stdoutJudged'])
+    if ncrlf < 500 or ncmd < 50:
+        raise MachineryError(f'newline: only {ncrlf} histories with a newline-carrying payload or CRLF mode, {ncmd} in CRLF mode through a command')
+    sn = iocommon.replay(ctx, 'newline.ndjson', 'newline-modes', iocommon.corrupt_newline, 1000)
+    if all(sig in iocommon.known_sigs(ctx) for sig in sn['sig_counts']):
+        ctx.selftest(ctx.path('newline_dim.ndjson'), ctx.pid, iocommon.corrupt_newline, 'newline-modes-crlf-and-shapes', k=24)
     fail = ctx.cfg('Gen_IOStreams', name='Gen_failure', constants={'Family': '"failure"', 'Depth': 2, 'Rich': 1 if q else 2, 'Runs': 1})
     ctx.tlc('Gen_IOStreams', fail, capture='failure.ndjson', timeout=900)
     if not q:
